@@ -1,4 +1,4 @@
 From Coq Require Extraction.
 From Coq Require Import ExtrOcamlBasic.
 From Echo Require Import Glue.G14.
-Extraction "extracted/m14.ml" G14.run.
+Extraction "extracted/m14.ml" G14.run_sx.
